@@ -68,8 +68,9 @@ CLAIMS = {
     'C20': ('abstract interpretation of StreamProcessor.__init__ (heap reachability: no live object reachable, deep copy) '
             'and process_line over the result shapes of the handlers (mapping, EOL, byte-for-byte pass-through, stale reads '
             'through the shared parser, flags of the command handed to the handlers); census of class-level containers (none '
-            'changed in place unless owned per instance)',
-            'handler result shapes from C09.R1; what OctoPrint passes to the live hook is assumed to be the stripped command'),
+            'changed in place unless owned per instance) and of handler-object configuration (none besides the state); result '
+            'shapes of every handler path (C09.R1/R3/R4 as premises)',
+            'what OctoPrint passes to the live hook is assumed to be the stripped command'),
     'C11': ('abstract interpretation of on_event for every event constant x active flag x clear setting against the '
             'reference transition table; hooks with no active print return None without effects; writer census of the flag; '
             'the clear-after-print field is refreshed from the stored setting on every path of the settings handler, raising ones included',
